@@ -1,8 +1,9 @@
 /-!
 # Placeholder templates (C16) — model of `mpf/core/placeholder_manager.py` `_eval*` and of Python's semantics
 
-* `Val`   : int / float (a dyadic rational `m / 2^e`, exact for the generated values) / bool / str / None / tuples
-            (cons cells) / placeholder objects (`machine`, `settings`, `current_player`, `device.<coll>.<name>`).
+* `Val`   : int / float (a dyadic rational `m / 2^e`; results that would not be exact in a double are `unmodelled`) / bool /
+            str / None / tuples (cons cells) / placeholder objects (`machine`, `machine.time`, `settings`, `current_player`,
+            `players[n]`, `game`, `game.player`, `mode.<name>`, `device.<coll>.<name>`).
 * `Expr`  : the supported grammar.  `a and b and c` is the left-nested binary form (same value in both semantics).
 * `eval`  : transcription of `_eval_*` — value or error class, the subscription list, and the log of locations read.
 * `pyStrict` / `pyLazy` : Python's own semantics for the same grammar with all `and`/`or` operands evaluated, and with
@@ -19,16 +20,20 @@ inductive Val
   | obj (root : String) (path : List String)
   deriving DecidableEq, Repr
 
-inductive PyErr | typeError | nameError | attrError | other | unmodelled
+/-- `nameError` = a `ValueError` nobody catches on the way (missing name, `'%z' % 1`, slice step 0, unknown mode name);
+`attrError` = attribute read from a falsy parent; `absent` = the placeholder raised `ValueError` for the location (not in a
+game, player not in game, no such device attribute), which MPF catches at the access -/
+inductive PyErr | typeError | nameError | attrError | absent | other | unmodelled
   deriving DecidableEq, Repr
 
-/-- what a Python operator applied to values can raise: `TypeError`, something else (`ZeroDivisionError`, a missing
-table entry = `KeyError`), or the operation is outside the model -/
-inductive OpErr | typeError | other | unmodelled
+/-- what a Python operator applied to values can raise: `TypeError`, `ValueError`, something else (`ZeroDivisionError`,
+`IndexError`, a missing table entry = `KeyError`), or the operation is outside the model -/
+inductive OpErr | typeError | valueError | other | unmodelled
   deriving DecidableEq, Repr
 
 def OpErr.toPy : OpErr → PyErr
   | .typeError => .typeError
+  | .valueError => .nameError
   | .other => .other
   | .unmodelled => .unmodelled
 
@@ -50,8 +55,33 @@ def num : Val → Option (Int × Nat × Bool)
   | .flt m e => some (m, e, true)
   | _ => Option.none
 
-def mkNum (isF : Bool) (m : Int) (e : Nat) : Val :=
-  if isF then let r := norm m e; .flt r.1 r.2 else .int m
+/-- a float result must be exactly representable in a double (53-bit mantissa, no overflow / denormal), else no claim -/
+def mkNum (isF : Bool) (m : Int) (e : Nat) : Except OpErr Val :=
+  if isF then
+    let r := norm m e
+    if r.1.natAbs < 2 ^ 53 ∧ r.2 ≤ 1000 then .ok (.flt r.1 r.2) else .error .unmodelled
+  else .ok (.int m)
+
+/-- `k` with `x = 2^k`, if any -/
+def log2Exact (x : Nat) : Option Nat := if x ≠ 0 ∧ 2 ^ x.log2 = x then some x.log2 else Option.none
+
+/-- `base ** exponent` for numbers (`m1 / 2^e1`, `m2 / 2^e2`): integer-valued exponents of bounded size; a negative exponent
+needs a base that is a power of two (else the result is not dyadic: no claim) -/
+def powNum (m1 : Int) (e1 : Nat) (f1 : Bool) (m2 : Int) (e2 : Nat) (f2 : Bool) : Except OpErr Val :=
+  let ex := norm m2 e2
+  if ex.2 ≠ 0 then .error .unmodelled
+  else
+    let n := ex.1
+    if n.natAbs > 200 then .error .unmodelled
+    else if 0 ≤ n then mkNum (f1 || f2) (m1 ^ n.toNat) (e1 * n.toNat)
+    else if m1 = 0 then .error .other
+    else
+      match log2Exact m1.natAbs with
+      | some k =>
+        let sgn : Int := if m1 < 0 ∧ n.natAbs % 2 = 1 then -1 else 1
+        if k ≤ e1 then mkNum true (sgn * 2 ^ ((e1 - k) * n.natAbs)) 0
+        else mkNum true sgn ((k - e1) * n.natAbs)
+      | Option.none => .error .unmodelled
 
 /-- both mantissas over the common exponent `max e1 e2` -/
 def align (m1 : Int) (e1 : Nat) (m2 : Int) (e2 : Nat) : Int × Int × Nat :=
@@ -81,6 +111,126 @@ def strRepeat (s : String) : Nat → String
   | 0 => ""
   | n + 1 => s ++ strRepeat s n
 
+def tupleToList : Val → List Val
+  | .tcons h t => h :: tupleToList t
+  | _ => []
+
+def listToTuple : List Val → Val
+  | [] => .tnil
+  | h :: t => .tcons h (listToTuple t)
+
+/-- `str(v)` -/
+def strOf : Val → Except OpErr String
+  | .int i => .ok (toString i)
+  | .bool b => .ok (if b then "True" else "False")
+  | .str s => .ok s
+  | .none => .ok "None"
+  | _ => .error .unmodelled
+
+/-- `fmt % args`, CPython's scanner for the conversions `%s`, `%d`, `%%` (anything else: no claim, except the unsupported
+character `z`): `TypeError` for a missing / left-over / wrongly typed argument, `ValueError` for an incomplete format -/
+def fmtScan : List Char → List Val → String → Except OpErr String
+  | [], [], acc => .ok acc
+  | [], _ :: _, _ => .error .typeError
+  | '%' :: [], _, _ => .error .valueError
+  | '%' :: c :: r, args, acc =>
+    if c = '%' then fmtScan r args (acc.push '%')
+    else if c = 's' ∨ c = 'd' ∨ c = 'z' then
+      match args with
+      | [] => .error .typeError
+      | a :: rest =>
+        if c = 'z' then .error .valueError
+        else if c = 's' then
+          match strOf a with
+          | .ok t => fmtScan r rest (acc ++ t)
+          | .error e => .error e
+        else
+          match a with
+          | .int i => fmtScan r rest (acc ++ toString i)
+          | .bool b => fmtScan r rest (acc ++ (if b then "1" else "0"))
+          | .flt _ _ => .error .unmodelled
+          | .obj _ _ => .error .unmodelled
+          | _ => .error .typeError
+    else .error .unmodelled
+  | c :: r, args, acc => fmtScan r args (acc.push c)
+
+/-- `__index__` -/
+def idxOf : Val → Option Int
+  | .int i => some i
+  | .bool b => some (if b then 1 else 0)
+  | _ => Option.none
+
+def normIdx (n : Nat) (i : Int) : Option Nat :=
+  if 0 ≤ i then (if i.toNat < n then some i.toNat else Option.none)
+  else (if (-i).toNat ≤ n then some (n - (-i).toNat) else Option.none)
+
+def seqIndex (xs : List α) (k : Val) (wrap : α → Val) : Except OpErr Val :=
+  match k with
+  | .obj _ _ => .error .unmodelled
+  | _ =>
+    match idxOf k with
+    | some i =>
+      match normIdx xs.length i with
+      | some j => (match xs[j]? with | some x => .ok (wrap x) | Option.none => .error .other)
+      | Option.none => .error .other
+    | Option.none => .error .typeError
+
+/-- `v[k]` on a plain value -/
+def pyIndex (v k : Val) : Except OpErr Val :=
+  match v with
+  | .str s => seqIndex s.toList k (fun c => .str (String.singleton c))
+  | .tnil => seqIndex (tupleToList v) k id
+  | .tcons _ _ => seqIndex (tupleToList v) k id
+  | .obj _ _ => .error .unmodelled
+  | _ => .error .typeError
+
+def sliceBound : Val → Except OpErr (Option Int)
+  | .none => .ok Option.none
+  | .int i => .ok (some i)
+  | .bool b => .ok (some (if b then 1 else 0))
+  | .obj _ _ => .error .unmodelled
+  | _ => .error .typeError
+
+def walk : Nat → Int → Int → Int → List Nat
+  | 0, _, _, _ => []
+  | f + 1, i, h, st => if (st > 0 ∧ i < h) ∨ (st < 0 ∧ i > h) then i.toNat :: walk f (i + st) h st else []
+
+/-- `slice(lo, hi, st).indices(n)` expanded -/
+def sliceIdx (n : Nat) (lo hi : Option Int) (st : Int) : List Nat :=
+  let N : Int := n
+  if st > 0 then
+    let clamp := fun (v : Int) => let w := if v < 0 then v + N else v; if w < 0 then 0 else if w > N then N else w
+    walk (n + 1) (match lo with | Option.none => 0 | some v => clamp v) (match hi with | Option.none => N | some v => clamp v) st
+  else
+    let clamp := fun (v : Int) => let w := if v < 0 then v + N else v; if w < 0 then -1 else if w ≥ N then N - 1 else w
+    walk (n + 1) (match lo with | Option.none => N - 1 | some v => clamp v) (match hi with | Option.none => -1 | some v => clamp v) st
+
+def pick (xs : List α) : List Nat → List α
+  | [] => []
+  | i :: r => (match xs[i]? with | some x => [x] | Option.none => []) ++ pick xs r
+
+/-- `v[lo:hi:st]` on a plain value; `b` is the tuple `(lo, hi, st)` (CPython unpacks the step first) -/
+def pySlice (v b : Val) : Except OpErr Val :=
+  match b with
+  | .tcons lo (.tcons hi (.tcons st .tnil)) =>
+    let go := fun (n : Nat) (k : List Nat → Val) =>
+      match sliceBound st with
+      | .error e => Except.error e
+      | .ok s =>
+        if s = some 0 then .error .valueError
+        else match sliceBound lo with
+          | .error e => .error e
+          | .ok l => match sliceBound hi with
+            | .error e => .error e
+            | .ok h => .ok (k (sliceIdx n l h (s.getD 1)))
+    match v with
+    | .str t => go t.length (fun is => .str (String.ofList (pick t.toList is)))
+    | .tnil => go 0 (fun _ => .tnil)
+    | .tcons _ _ => go (tupleToList v).length (fun is => listToTuple (pick (tupleToList v) is))
+    | .obj _ _ => .error .unmodelled
+    | _ => .error .typeError
+  | _ => .error .other
+
 /-- Python `==` (never raises); `none` = outside the model -/
 def pyEq : Val → Val → Option Bool
   | .obj _ _, _ => Option.none
@@ -104,16 +254,14 @@ def applyBin (fn : String) (a b : Val) : Except OpErr Val :=
     let r := align m1 e1 m2 e2
     let A := r.1; let B := r.2.1; let E := r.2.2
     let isF := f1 || f2
-    if fn = "add" then .ok (mkNum isF (A + B) E)
-    else if fn = "sub" then .ok (mkNum isF (A - B) E)
-    else if fn = "mul" then .ok (mkNum isF (m1 * m2) (e1 + e2))
-    else if fn = "floordiv" then (if B = 0 then .error .other else .ok (mkNum isF (Int.fdiv A B) 0))
-    else if fn = "mod" then (if B = 0 then .error .other else .ok (mkNum isF (Int.fmod A B) E))
+    if fn = "add" then mkNum isF (A + B) E
+    else if fn = "sub" then mkNum isF (A - B) E
+    else if fn = "mul" then mkNum isF (m1 * m2) (e1 + e2)
+    else if fn = "floordiv" then (if B = 0 then .error .other else mkNum isF (Int.fdiv A B) 0)
+    else if fn = "mod" then (if B = 0 then .error .other else mkNum isF (Int.fmod A B) E)
     else if fn = "truediv" then
-      (if B = 0 then .error .other else if Int.fmod A B = 0 then .ok (mkNum true (Int.fdiv A B) 0) else .error .unmodelled)
-    else if fn = "pow" then
-      (if isF then .error .unmodelled else if m2 < 0 then .error .unmodelled else if m2 > 16 then .error .unmodelled
-       else .ok (.int (m1 ^ m2.toNat)))
+      (if B = 0 then .error .other else if Int.fmod A B = 0 then mkNum true (Int.fdiv A B) 0 else .error .unmodelled)
+    else if fn = "pow" then powNum m1 e1 f1 m2 e2 f2
     else if fn = "xor" then
       (if isF then .error .typeError else if m1 < 0 ∨ m2 < 0 then .error .unmodelled
        else match a, b with
@@ -127,16 +275,20 @@ def applyBin (fn : String) (a b : Val) : Except OpErr Val :=
       | x, y => if isTuple x && isTuple y then .ok (tappend x y) else .error .typeError
     else if fn = "mul" then
       match a, b with
-      | .str x, .int n => .ok (.str (strRepeat x n.toNat))
+      | .str x, .int n => if n > 10000 then .error .unmodelled else .ok (.str (strRepeat x n.toNat))
       | .str x, .bool n => .ok (.str (if n then x else ""))
-      | .int n, .str x => .ok (.str (strRepeat x n.toNat))
+      | .int n, .str x => if n > 10000 then .error .unmodelled else .ok (.str (strRepeat x n.toNat))
       | .bool n, .str x => .ok (.str (if n then x else ""))
       | x, y => if (isTuple x && (num y).isSome) || (isTuple y && (num x).isSome) then .error .unmodelled
                 else .error .typeError
     else if fn = "mod" then
-      match a with
-      | .str _ => .error .unmodelled
-      | _ => .error .typeError
+      match a, b with
+      | .str _, .obj _ _ => .error .unmodelled
+      | .str f, _ =>
+        (match fmtScan f.toList (if isTuple b then tupleToList b else [b]) "" with
+         | .ok t => .ok (.str t)
+         | .error e => .error e)
+      | _, _ => .error .typeError
     else if fn = "sub" ∨ fn = "floordiv" ∨ fn = "truediv" ∨ fn = "pow" ∨ fn = "xor" then .error .typeError
     else .error .other
 
@@ -170,7 +322,7 @@ def applyCmp (fn : String) (a b : Val) : Except OpErr Val :=
 def applyUn (fn : String) (a : Val) : Except OpErr Val :=
   if fn = "neg" then
     match num a with
-    | some (m, e, f) => .ok (mkNum f (-m) e)
+    | some (m, e, f) => mkNum f (-m) e
     | Option.none => .error .typeError
   else if fn = "not_" then .ok (.bool (!truthy a))
   else .error .other
@@ -211,13 +363,19 @@ inductive Expr
   | tnil | tcons (h t : Expr)
   | attr (e : Expr) (a : String)
   | item (e : Expr) (k : Expr)
+  | slice (e : Expr) (b : Expr)        -- `e[lo:hi:st]`, `b` = the tuple expression `(lo, hi, st)` (omitted bound = `None`)
   deriving Repr
 
 abbrev Loc := String × List String
 
+/-- `objs`: the placeholder objects below the roots that exist now (`machine.time`, `game` = a game is running, `game.player`,
+`mode.<name>`, `device.<collection>`, `device.<collection>.<name>`); `absent`: locations whose read raises `ValueError`
+(`current_player.x` outside a game, `players[3].x` with two players, an unknown device attribute) -/
 structure Env where
   params : List (String × Val) := []
   vars : List (Loc × Val) := []
+  objs : List Loc := []
+  absent : List Loc := []
 
 def findParam (n : String) : List (String × Val) → Option Val
   | [] => Option.none
@@ -227,16 +385,18 @@ def findVar (l : Loc) : List (Loc × Val) → Val
   | [] => .none
   | (a, v) :: r => if a = l then v else findVar l r
 
-/-- the value of a machine variable / player variable / setting / device attribute (`None` when it does not exist) -/
-def Env.read (env : Env) (l : Loc) : Val := findVar l env.vars
+/-- the value of a machine variable / player variable / setting / device attribute / game or mode attribute (`None` when
+it does not exist); `none` = reading it raises `ValueError` -/
+def Env.look (env : Env) (l : Loc) : Option Val := if l ∈ env.absent then Option.none else some (findVar l env.vars)
 
-def roots : List String := ["settings", "machine", "device", "current_player"]
-/-- levels below the root that are still placeholder objects (`device.<collection>.<name>`) -/
-def depth (r : String) : Nat := if r = "device" then 2 else 0
+/-- roots whose placeholder has a `subscribe()` -/
+def roots : List String := ["settings", "machine", "device", "current_player", "players"]
+/-- levels below the root that must be existing placeholder objects (`device.<collection>.<name>`, `mode.<name>`) -/
+def depth (r : String) : Nat := if r = "device" then 2 else if r = "mode" then 1 else 0
 
 inductive Sub
   | root (r : String)                 -- `<placeholder>.subscribe()`
-  | inner (l : Loc)                   -- `subscribe_attribute` on an intermediate device placeholder (never fires)
+  | inner (l : Loc)                   -- `subscribe_attribute` on an intermediate placeholder (never fires / not a variable)
   | loc (l : Loc)                     -- the event / attribute future of a variable
   deriving DecidableEq, Repr
 
@@ -253,45 +413,63 @@ structure Res where
   reads : List Loc := []
   deriving Repr
 
-/-- how an operator error surfaces in MPF: only `TypeError` is mapped to the default -/
-def mapOpErr : OpErr → Out
+/-- how an operator error surfaces in MPF: `TypeError` is mapped to the default; a `ValueError` is only caught by
+`BaseTemplate.evaluate` (default) and is an `AssertionError` when subscribing -/
+def mapOpErr (sub : Bool) : OpErr → Out
   | .typeError => .default
+  | .valueError => if sub then .crash else .default
   | .unmodelled => .unmodelled
-  | _ => .crash
+  | .other => .crash
 
-def ofExcept (r : Except OpErr Val) : Out :=
+def ofExcept (sub : Bool) (r : Except OpErr Val) : Out :=
   match r with
   | .ok v => .ok v
-  | .error e => mapOpErr e
+  | .error e => mapOpErr sub e
 
 /-- `value.<a>` / `value[<a>]` on a placeholder object -/
 def access (sub : Bool) (env : Env) (v : Val) (a : String) (subs : List Sub) (reads : List Loc) : Res :=
   match v with
   | .obj r p =>
-    if p.length < depth r then
+    if (r, p ++ [a]) ∈ env.objs ∨ (r = "players" ∧ p = []) then
       { out := .ok (.obj r (p ++ [a])), subs := subs ++ (if sub then [Sub.inner (r, p ++ [a])] else []), reads := reads }
+    else if p.length < depth r then
+      -- no such device collection / device (`AssertionError`), no such mode (`ValueError`)
+      { out := if r = "mode" then (if sub then .crash else .default) else .crash, subs := subs, reads := reads }
     else
-      { out := .ok (env.read (r, p ++ [a])), subs := subs ++ (if sub then [Sub.loc (r, p ++ [a])] else []),
-        reads := reads ++ [(r, p ++ [a])] }
-  | _ => { out := .unmodelled, subs := subs, reads := reads }
+      match env.look (r, p ++ [a]) with
+      | some x => { out := .ok x, subs := subs ++ (if sub then [Sub.loc (r, p ++ [a])] else []), reads := reads ++ [(r, p ++ [a])] }
+      | Option.none => { out := .default, subs := subs ++ (if sub then [Sub.loc (r, p ++ [a])] else []),
+                         reads := reads ++ [(r, p ++ [a])] }
+  | _ => { out := .crash, subs := subs, reads := reads }      -- attribute of a plain value: `AttributeError` in both modes
 
-def tupleIndex : Val → Nat → Option Val
-  | .tcons h _, 0 => some h
-  | .tcons _ t, n + 1 => tupleIndex t n
-  | _, _ => Option.none
+/-- `v[vk]` after both have been evaluated (`_eval_subscript` without a slice) -/
+def itemRes (sub : Bool) (env : Env) (v vk : Val) (subs : List Sub) (reads : List Loc) : Res :=
+  match v, vk with
+  | .obj root p, .str key =>
+    if root = "settings" ∨ (root = "game" ∧ p = []) then { out := .default, subs := subs, reads := reads }   -- not subscriptable
+    else if (root = "machine" ∧ p = ["time"]) ∨ (root = "players" ∧ p = []) then { out := .unmodelled, subs := subs, reads := reads }
+    else access sub env (.obj root p) key subs reads
+  | .obj root p, .int i =>
+    if root = "players" ∧ p = [] then access sub env (.obj root p) (toString i) subs reads
+    else { out := .unmodelled, subs := subs, reads := reads }
+  | .obj _ _, _ => { out := .unmodelled, subs := subs, reads := reads }
+  | tv, k => { out := ofExcept sub (pyIndex tv k), subs := subs, reads := reads }
 
 /-- transcription of `BasePlaceholderManager._eval` (`sub` = the `subscribe` flag) -/
 def eval (sub : Bool) (env : Env) : Expr → Res
   | .const v => { out := .ok v }
   | .name n =>
     if n ∈ roots then { out := .ok (.obj n []), subs := if sub then [Sub.root n] else [] }
+    else if n = "mode" ∨ (n = "game" ∧ ("game", []) ∈ env.objs) then
+      -- ModePlaceholder / Game have no `subscribe()`: rejected when subscribing
+      { out := if sub then .crash else .ok (.obj n []) }
     else match findParam n env.params with
       | some v => { out := .ok v }
       | Option.none => { out := if sub then .crash else .default }     -- ValueError("Missing variable")
   | .unary op e =>
     let r := eval sub env e
     match r.out with
-    | .ok v => { r with out := ofExcept (viaTable opTable op (fun fn => applyUn fn v)) }
+    | .ok v => { r with out := ofExcept sub (viaTable opTable op (fun fn => applyUn fn v)) }
     | _ => r
   | .bin op a b =>
     let ra := eval sub env a
@@ -299,7 +477,7 @@ def eval (sub : Bool) (env : Env) : Expr → Res
     | .ok va =>
       let rb := eval sub env b
       match rb.out with
-      | .ok vb => { out := ofExcept (viaTable opTable op (fun fn => applyBin fn va vb)), subs := ra.subs ++ rb.subs,
+      | .ok vb => { out := ofExcept sub (viaTable opTable op (fun fn => applyBin fn va vb)), subs := ra.subs ++ rb.subs,
                     reads := ra.reads ++ rb.reads }
       | o => { out := o, subs := ra.subs ++ rb.subs, reads := ra.reads ++ rb.reads }
     | _ => ra
@@ -309,7 +487,7 @@ def eval (sub : Bool) (env : Env) : Expr → Res
     | .ok va =>
       let rb := eval sub env b
       match rb.out with
-      | .ok vb => { out := ofExcept (viaTable cmpTable op (fun fn => applyCmp fn va vb)), subs := ra.subs ++ rb.subs,
+      | .ok vb => { out := ofExcept sub (viaTable cmpTable op (fun fn => applyCmp fn va vb)), subs := ra.subs ++ rb.subs,
                     reads := ra.reads ++ rb.reads }
       | o => { out := o, subs := ra.subs ++ rb.subs, reads := ra.reads ++ rb.reads }
     | _ => ra
@@ -319,7 +497,7 @@ def eval (sub : Bool) (env : Env) : Expr → Res
     | .ok va =>
       let rb := eval sub env b
       match rb.out with
-      | .ok vb => { out := ofExcept (viaTable boolTable op (fun fn => applyBool fn va vb)), subs := ra.subs ++ rb.subs,
+      | .ok vb => { out := ofExcept sub (viaTable boolTable op (fun fn => applyBool fn va vb)), subs := ra.subs ++ rb.subs,
                     reads := ra.reads ++ rb.reads }
       | o => { out := o, subs := ra.subs ++ rb.subs, reads := ra.reads ++ rb.reads }
     | _ => ra
@@ -345,6 +523,7 @@ def eval (sub : Bool) (env : Env) : Expr → Res
     match r.out with
     | .ok v =>
       if truthy v = false then { r with out := if sub then .default else .crash }
+      else if v = .obj "players" [] then { r with out := .unmodelled }
       else access sub env v a r.subs r.reads
     | _ => r
   | .item e k =>
@@ -353,90 +532,106 @@ def eval (sub : Bool) (env : Env) : Expr → Res
     | .ok v =>
       let rk := eval sub env k
       match rk.out with
-      | .ok vk =>
-        match v, vk with
-        | .obj root p, .str key =>
-          if root = "settings" then { out := .unmodelled, subs := r.subs ++ rk.subs, reads := r.reads ++ rk.reads }
-          else access sub env (.obj root p) key (r.subs ++ rk.subs) (r.reads ++ rk.reads)
-        | tv, .int i =>
-          if isTuple tv ∧ 0 ≤ i then
-            { out := (match tupleIndex tv i.toNat with | some x => .ok x | Option.none => .crash),
-              subs := r.subs ++ rk.subs, reads := r.reads ++ rk.reads }
-          else { out := .unmodelled, subs := r.subs ++ rk.subs, reads := r.reads ++ rk.reads }
-        | _, _ => { out := .unmodelled, subs := r.subs ++ rk.subs, reads := r.reads ++ rk.reads }
+      | .ok vk => itemRes sub env v vk (r.subs ++ rk.subs) (r.reads ++ rk.reads)
       | o => { out := o, subs := r.subs ++ rk.subs, reads := r.reads ++ rk.reads }
     | _ => r
+  | .slice e b =>
+    let ra := eval sub env e
+    match ra.out with
+    | .ok va =>
+      let rb := eval sub env b
+      match rb.out with
+      | .ok vb => { out := ofExcept sub (pySlice va vb), subs := ra.subs ++ rb.subs, reads := ra.reads ++ rb.reads }
+      | o => { out := o, subs := ra.subs ++ rb.subs, reads := ra.reads ++ rb.reads }
+    | _ => ra
 
 /-! ## Python's semantics for the same grammar -/
 
 def pyAccess (env : Env) (v : Val) (a : String) : Except PyErr Val :=
   match v with
-  | .obj r p => if p.length < depth r then .ok (.obj r (p ++ [a])) else .ok (env.read (r, p ++ [a]))
-  | _ => .error .unmodelled
+  | .obj r p =>
+    if (r, p ++ [a]) ∈ env.objs ∨ (r = "players" ∧ p = []) then .ok (.obj r (p ++ [a]))
+    else if p.length < depth r then (if r = "mode" then .error .nameError else .error .other)
+    else match env.look (r, p ++ [a]) with
+      | some x => .ok x
+      | Option.none => .error .absent
+  | _ => .error .other
 
 def pyItem (env : Env) (v vk : Val) : Except PyErr Val :=
   match v, vk with
-  | .obj root p, .str key => if root = "settings" then .error .unmodelled else pyAccess env (.obj root p) key
-  | tv, .int i =>
-    if isTuple tv ∧ 0 ≤ i then (match tupleIndex tv i.toNat with | some x => .ok x | Option.none => .error .other)
-    else .error .unmodelled
-  | _, _ => .error .unmodelled
+  | .obj root p, .str key =>
+    if root = "settings" ∨ (root = "game" ∧ p = []) then .error .typeError
+    else if (root = "machine" ∧ p = ["time"]) ∨ (root = "players" ∧ p = []) then .error .unmodelled
+    else pyAccess env (.obj root p) key
+  | .obj root p, .int i => if root = "players" ∧ p = [] then pyAccess env (.obj root p) (toString i) else .error .unmodelled
+  | .obj _ _, _ => .error .unmodelled
+  | tv, k => liftOp (pyIndex tv k)
 
-/-- Python with every `and` / `or` operand evaluated (`lazy = false`) or with Python's short-circuit (`lazy = true`) -/
-def py (lazy : Bool) (env : Env) : Expr → Except PyErr Val
+/-- Python with every `and` / `or` operand evaluated (`lazy = false`) or with Python's short-circuit (`lazy = true`).
+`rej`: the names `mode` / `game` are outside the grammar (they cannot be subscribed: rejected) -/
+def py (lazy rej : Bool) (env : Env) : Expr → Except PyErr Val
   | .const v => .ok v
   | .name n =>
     if n ∈ roots then .ok (.obj n [])
+    else if n = "mode" ∨ (n = "game" ∧ ("game", []) ∈ env.objs) then (if rej then .error .other else .ok (.obj n []))
     else match findParam n env.params with
       | some v => .ok v
       | Option.none => .error .nameError
   | .unary op e =>
-    match py lazy env e with
+    match py lazy rej env e with
     | .ok v => liftOp (viaTable opTable op (fun fn => applyUn fn v))
     | .error x => .error x
   | .bin op a b =>
-    match py lazy env a with
+    match py lazy rej env a with
     | .ok va =>
-      match py lazy env b with
+      match py lazy rej env b with
       | .ok vb => liftOp (viaTable opTable op (fun fn => applyBin fn va vb))
       | .error x => .error x
     | .error x => .error x
   | .cmp op a b =>
-    match py lazy env a with
+    match py lazy rej env a with
     | .ok va =>
-      match py lazy env b with
+      match py lazy rej env b with
       | .ok vb => liftOp (viaTable cmpTable op (fun fn => applyCmp fn va vb))
       | .error x => .error x
     | .error x => .error x
   | .boolop op a b =>
-    match py lazy env a with
+    match py lazy rej env a with
     | .ok va =>
       if lazy && ((op = "And" && !truthy va) || (op = "Or" && truthy va)) then .ok va
-      else match py lazy env b with
+      else match py lazy rej env b with
         | .ok vb => liftOp (viaTable boolTable op (fun fn => applyBool fn va vb))
         | .error x => .error x
     | .error x => .error x
   | .ite c a b =>
-    match py lazy env c with
-    | .ok vc => if truthy vc then py lazy env a else py lazy env b
+    match py lazy rej env c with
+    | .ok vc => if truthy vc then py lazy rej env a else py lazy rej env b
     | .error x => .error x
   | .tnil => .ok .tnil
   | .tcons h t =>
-    match py lazy env h with
+    match py lazy rej env h with
     | .ok vh =>
-      match py lazy env t with
+      match py lazy rej env t with
       | .ok vt => .ok (.tcons vh vt)
       | .error x => .error x
     | .error x => .error x
   | .attr e a =>
-    match py lazy env e with
-    | .ok v => if truthy v = false then .error .attrError else pyAccess env v a
+    match py lazy rej env e with
+    | .ok v => if truthy v = false then .error .attrError else if v = .obj "players" [] then .error .unmodelled
+               else pyAccess env v a
     | .error x => .error x
   | .item e k =>
-    match py lazy env e with
+    match py lazy rej env e with
     | .ok v =>
-      match py lazy env k with
+      match py lazy rej env k with
       | .ok vk => pyItem env v vk
+      | .error x => .error x
+    | .error x => .error x
+  | .slice e b =>
+    match py lazy rej env e with
+    | .ok va =>
+      match py lazy rej env b with
+      | .ok vb => liftOp (pySlice va vb)
       | .error x => .error x
     | .error x => .error x
 
@@ -445,6 +640,7 @@ def mapErr (sub : Bool) : PyErr → Out
   | .typeError => .default
   | .nameError => if sub then .crash else .default
   | .attrError => if sub then .default else .crash
+  | .absent => .default
   | .other => .crash
   | .unmodelled => .unmodelled
 
@@ -452,6 +648,58 @@ def ofPy (sub : Bool) (r : Except PyErr Val) : Out :=
   match r with
   | .ok v => .ok v
   | .error e => mapErr sub e
+
+/-! ## text templates (`TextTemplate` / `MpfFormatter`): literal pieces and `{expression:spec}` fields -/
+
+inductive Piece
+  | lit (s : String)
+  | fld (e : Expr) (spec : String)
+  deriving Repr
+
+/-- `format(v, spec)` for the empty spec and `d` (other specs: no claim); an error is an `AssertionError` in both modes -/
+def fmtVal (v : Val) (spec : String) : Except OpErr String :=
+  if spec = "" then strOf v
+  else if spec = "d" then
+    match v with
+    | .int i => .ok (toString i)
+    | .bool b => .ok (if b then "1" else "0")
+    | .none => .ok "0"                 -- MpfFormatter.format_field: None with an integer spec formats as 0
+    | .obj _ _ => .error .unmodelled
+    | _ => .error .other
+  else .error .unmodelled
+
+/-- a field: a failed evaluation (the raw template's default) and `None` format as `None` -/
+def fieldOut (o : Out) (spec : String) : Out :=
+  match o with
+  | .crash => .crash
+  | .unmodelled => .unmodelled
+  | .ok v => (match fmtVal v spec with | .ok s => .ok (.str s) | .error .unmodelled => .unmodelled | .error _ => .crash)
+  | .default => (match fmtVal .none spec with | .ok s => .ok (.str s) | .error .unmodelled => .unmodelled | .error _ => .crash)
+
+def joinOut (s : String) (o : Out) : Out :=
+  match o with
+  | .ok (.str t) => .ok (.str (s ++ t))
+  | .ok _ => .crash
+  | o => o
+
+/-- evaluate the pieces left to right given the outcome of every field (`f`) -/
+def textEval (f : Expr → Res) : List Piece → Res
+  | [] => { out := .ok (.str "") }
+  | .lit s :: ps => let r := textEval f ps; { r with out := joinOut s r.out }
+  | .fld e spec :: ps =>
+    let r1 := f e
+    match fieldOut r1.out spec with
+    | .ok (.str s) => let r2 := textEval f ps; { out := joinOut s r2.out, subs := r1.subs ++ r2.subs, reads := r1.reads ++ r2.reads }
+    | o => { r1 with out := o }
+
+/-- the same with every field given by Python's semantics -/
+def textPy (sub : Bool) (env : Env) : List Piece → Out
+  | [] => .ok (.str "")
+  | .lit s :: ps => joinOut s (textPy sub env ps)
+  | .fld e spec :: ps =>
+    match fieldOut (ofPy sub (py false sub env e)) spec with
+    | .ok (.str s) => joinOut s (textPy sub env ps)
+    | o => o
 
 /-! ## line-protocol driver -/
 
@@ -488,6 +736,7 @@ def showPy (r : Except PyErr Val) : String :=
   | .error .typeError => "raise TypeError"
   | .error .nameError => "raise NameError"
   | .error .attrError => "raise AttributeError"
+  | .error .absent => "raise Absent"
   | .error .other => "raise Other"
   | .error .unmodelled => "unmodelled"
 
@@ -531,12 +780,32 @@ def parseExpr : Nat → List String → Option (Expr × List String)
     | "a" :: an :: r => do let (e, r1) ← parseExpr fuel r; pure (Expr.attr e an, r1)
     | "x" :: r => do
       let (e, r1) ← parseExpr fuel r; let (k, r2) ← parseExpr fuel r1; pure (Expr.item e k, r2)
+    | "sl" :: r => do
+      let (e, r1) ← parseExpr fuel r; let (lo, r2) ← parseExpr fuel r1; let (hi, r3) ← parseExpr fuel r2
+      let (st, r4) ← parseExpr fuel r3
+      pure (Expr.slice e (Expr.tcons lo (Expr.tcons hi (Expr.tcons st Expr.tnil))), r4)
     | _ => Option.none
 
 def parseAll (toks : List String) : Option Expr :=
   match parseExpr (toks.length + 1) toks with
   | some (e, []) => some e
   | _ => Option.none
+
+/-- `L =<literal>` / `F <spec or -> <expression>` ... -/
+def parsePieces : Nat → List String → Option (List Piece)
+  | 0, _ => Option.none
+  | _ + 1, [] => some []
+  | fuel + 1, "L" :: s :: r => (parsePieces fuel r).map (fun ps => Piece.lit (String.ofList (s.toList.drop 1)) :: ps)
+  | fuel + 1, "F" :: spec :: r => do
+    let (e, r1) ← parseExpr (r.length + 1) r
+    let ps ← parsePieces fuel r1
+    pure (Piece.fld e (strTok spec) :: ps)
+  | _, _ => Option.none
+
+def parseLoc (l : String) : Option Loc :=
+  match l.splitOn "." with
+  | r :: p => some (r, p)
+  | [] => Option.none
 
 def driverStep (env : Env) (line : String) : Env × String :=
   match line.splitOn " " with
@@ -546,9 +815,17 @@ def driverStep (env : Env) (line : String) : Env × String :=
     | some (v, []) => ({ env with params := (n, v) :: env.params }, "ok")
     | _ => (env, "bad-op")
   | "set" :: l :: rest =>
-    match parseVal (rest.length + 1) rest, l.splitOn "." with
-    | some (v, []), r :: p => ({ env with vars := ((r, p), v) :: env.vars }, "ok")
+    match parseVal (rest.length + 1) rest, parseLoc l with
+    | some (v, []), some loc => ({ env with vars := (loc, v) :: env.vars }, "ok")
     | _, _ => (env, "bad-op")
+  | ["obj", l] =>
+    match parseLoc l with
+    | some loc => ({ env with objs := loc :: env.objs }, "ok")
+    | Option.none => (env, "bad-op")
+  | ["absent", l] =>
+    match parseLoc l with
+    | some loc => ({ env with absent := loc :: env.absent }, "ok")
+    | Option.none => (env, "bad-op")
   | "eval" :: s :: rest =>
     match parseAll rest with
     | some e => if s = "1" then (env, showRes (eval true env e)) else if s = "0" then (env, showRes (eval false env e))
@@ -556,8 +833,13 @@ def driverStep (env : Env) (line : String) : Env × String :=
     | Option.none => (env, "bad-op")
   | "py" :: s :: rest =>
     match parseAll rest with
-    | some e => if s = "lazy" then (env, showPy (py true env e)) else if s = "strict" then (env, showPy (py false env e))
+    | some e => if s = "lazy" then (env, showPy (py true false env e)) else if s = "strict" then (env, showPy (py false false env e))
                 else (env, "bad-op")
+    | Option.none => (env, "bad-op")
+  | "text" :: s :: rest =>
+    match parsePieces (rest.length + 1) rest with
+    | some ps => if s = "1" then (env, showRes (textEval (eval true env) ps)) else if s = "0" then (env, showRes (textEval (eval false env) ps))
+                 else (env, "bad-op")
     | Option.none => (env, "bad-op")
   | _ => (env, "bad-op")
 
